@@ -319,7 +319,7 @@ func GenTypeText(r *rand.Rand, depth int) string {
 	case 31:
 		return "Timespan[{hours => 1}, {days => 2}]"
 	case 32:
-		return "Object[{name => 'My::O" + strconv.Itoa(r.Intn(100)) + "', attributes => {" + words[r.Intn(len(words))] + " => " + sub() + "}}]"
+		return "Object[{attributes => {" + words[r.Intn(len(words))] + " => " + sub() + "}}]"
 	}
 	return "Like[" + sub() + ", 'a.b']"
 }
@@ -389,7 +389,7 @@ func GenValueText(r *rand.Rand, depth int) string {
 		for i := range xs {
 			xs[i] = sub()
 		}
-		return []string{"Foo", "My::Thing", "Deferred", "Binary", "Timestamp"}[r.Intn(5)] + "(" + strings.Join(xs, ", ") + ")"
+		return []string{"Foo", "My::Thing", "Deferred", "Binary", "SemVer"}[r.Intn(5)] + "(" + strings.Join(xs, ", ") + ")"
 	case 6:
 		return GenTypeText(r, depth-1)
 	}
